@@ -63,6 +63,18 @@ def removeAll {α : Type} (idOf : α → Nat) : List α → List Nat → Option 
       let st' := st.eraseP (fun y => idOf y = id)
       (removeAll idOf st' rest).map fun (s, del) => (s, x :: del)
 
+/-- the copy of a created / updated QER that goes to the datapath: its level is the one the marking chose for the session's QER -/
+def withMarkedLevel (qersM : List Qer) (q : Qer) : Qer :=
+  match qersM.find? (·.qerID = q.qerID) with
+  | some x => { q with session := x.session }
+  | none => q
+
+/-- the copy of a created / updated PDR that goes to the datapath: its QER list is the (reordered) list of the session's PDR -/
+def withMarkedLists (pdrsM2 : List Pdr) (p : Pdr) : Pdr :=
+  match pdrsM2.find? (·.pdrID = p.pdrID) with
+  | some q => { p with qerIDs := q.qerIDs }
+  | none => p
+
 structure ModOut where
   world : World
   reply : Reply
@@ -101,13 +113,9 @@ def modify (cfg : Cfg) (w : World) (a : Nat) (r : ModReq) : ModOut :=
     let addQ := cq ++ sentUq
     let (qersM, pdrsM2) := markSessionQer pdrs1 qers1
     -- the QERs handed to the datapath carry the level chosen among all QERs of the session
-    let addQM := addQ.map fun q => match qersM.find? (·.qerID = q.qerID) with
-      | some x => { q with session := x.session }
-      | none => q
+    let addQM := addQ.map (withMarkedLevel qersM)
     -- the PDR copies handed to the datapath share their QER lists with the session's: take the reordered lists
-    let addPM := addP.map fun p => match pdrsM2.find? (·.pdrID = p.pdrID) with
-      | some q => { p with qerIDs := q.qerIDs }
-      | none => p
+    let addPM := addP.map (withMarkedLists pdrsM2)
     let t := sendAdd cfg w.tables addPM addF addQM
     let w1 := { w with pool := pool, tables := t }
     let markers := if cfg.endMarker then markers else []
